@@ -1,10 +1,12 @@
 """C19 — Rename changes exactly the occurrences of one variable.
 
 Level: translation validation (certified validator).
-Proof (GardenVerif.Props.C19): `alphaCheck_sound` (the decision procedure implies `IsAlphaRename`),
-`alpha_sound_partial` / `alpha_sound_behaviour_partial` (alpha-renaming one binder to a fresh name leaves the run
-of the reference semantics unchanged, closure-free restriction, all fuel), `apply_renames_spec` (exact model of
-`apply_renames`: the tokens at the given positions are replaced, every gap is untouched, no panic).
+Proof (GardenVerif.Props.C19): `alphaCheck_sound` (the decision procedure implies `IsAlphaRename`), `alpha_sound`
+(alpha-renaming one binder to a fresh name leaves the observable behaviour — end of run and printed output — of the
+FULL reference semantics unchanged, closures included, all fuel; via `alpha_sound_related`: results and stores related by
+the value relation `VRel`), `alpha_sound_exact_closure_free` (closure-free restriction: the runs are equal),
+`apply_renames_spec` (exact model of `apply_renames`: the tokens at the given positions are replaced, every gap is
+untouched, no panic).
 Per input: the real `rename` (hook op `refactor rename` = the function behind `garden reftest-rename`; a sample
 also through the CLI) is run at EVERY local symbol occurrence (definition or use; let / parameter / for / match /
 closure-parameter binders) of generated programs; the Lean driver evaluates `alphaCheck` on the two trees of the
@@ -250,8 +252,6 @@ def run(ctx):
     ctx.assumptions += [
         "RefSem (Model/RefSem.lean) is a reference semantics, not a transcription of eval.rs; it is tied to the real "
         "evaluator by the refsem_run comparison on every generated program (output and outcome kind)",
-        "alpha_sound_partial covers the closure-free restriction of RefSem; programs with closures are covered by the "
-        "decidable relation (evaluated on every input) and by the direct oracle only",
         "sources are ASCII, so byte offsets = UTF-16 offsets in the LSP comparison",
     ]
     ctx.log("validator accepted %d/%d (closure-free %d); run diffs re-examined %d; lsp %d; cli %d; stats %s" % (
